@@ -2,10 +2,24 @@
 
 (a) proofs: Properties/C03.v over Gen_shapes (regenerated from the current source; golden fallback)
 (b) interval sample goals: generated profile / scaling expressions vs values computed by the implementation
-(c) D-layer correspondence inside Coq: sharp masks of spheres / emulsions on Cartesian grids (exact, CD inputs),
-    the angle computation of polar_coordinates, the emulsion sum/clip on rationals
+(c) D-layer correspondence inside Coq: sharp masks of spheres / emulsions on Cartesian grids and of centred / on-axis
+    spheres / emulsions on PolarSym, SphericalSym and CylindricalSym grids (exact, CD inputs), the angle computation
+    of polar_coordinates (all grid families), the emulsion sum/clip on rationals
 (d) property oracle (Python, from the property text) on the real implementation: all five classes,
     every compatible grid family
+
+Input dimensions of the streams (notes/input_dimensions.md; every one is counted in the evidence histogram):
+grid geometry (1-/2-cell axes, unequal cell counts and spacings in both orders, origin centred / positive / negative,
+every periodicity mask, inner radius > 0, narrow finely sliced / flat wide cylinders, dr vs dz), centre on cell
+centres / faces / vertices, next to and beyond every face and corner of the periodic axes, touching non-periodic
+faces, radius 0 / tiny / knife edge, width None / 0 / positive, amplitude vectors of length 0 / 1 / odd / even with
+the last entry (non-)zero, vmin/vmax ordered / mirrored / equal / negative, numeric types of all arguments (int,
+float, numpy scalars, 0-d arrays, float32, tuples, lists, strided views), image dtypes (float16/32/64, int, int8,
+uint8, bool), keyword defaults / None / explicit, provenance of the droplet (copy, deepcopy, pickle, shared record,
+assigned attributes, member of an emulsion / track / time course, rendered before), emulsions of 0 / 1 / up to 40
+members of one or several classes built by nine routes, and after every rendering: the caller's droplet, argument
+arrays, emulsion and grid are what they were; a second rendering is identical and lives in fresh memory; a result of
+the wrong class / dtype / shape or an undocumented exception is a failure with that input.
 """
 from __future__ import annotations
 
@@ -37,6 +51,8 @@ TRUSTED = [
     "(dependency behaviour, modelled as is)",
     "numpy elementwise semantics: bool.astype(float) in {0.0, 1.0}, np.clip = minimum(maximum(x, lo), hi), "
     "ScalarField(grid) = zeros (checked per sample)",
+    "Model/RenderSym.v (cell centres of PolarSym / SphericalSym / CylindricalSym grids as py-pde computes them; "
+    "compared cell by cell inside Coq on coarse-dyadic inputs)",
     "scipy.special.sph_harm_y (harmonics of the perturbed 3-d classes; compared with an independent Legendre "
     "recurrence in the oracle)",
 ]
@@ -51,13 +67,19 @@ ASSUME = [
     "for vmin > vmax the inside value is the smaller one: `exceeds the midpoint` is read mirrored (below the "
     "midpoint iff inside); for vmin = vmax the field is constant and no midpoint statement is made",
     "compatible grid = droplet on the symmetry centre/axis for PolarSym/SphericalSym/CylindricalSym grids",
+    "`_get_phase_field(grid, dtype)` with an integer dtype truncates the smooth profile (numpy astype): for such "
+    "images only the clauses `values in {0, 1}`, `1 only inside` and, for sharp droplets, `= indicator` are judged; "
+    "float16/float32 images are judged like the float64 image with the resolution of their dtype",
+    "the `label` keyword is varied and its fate counted (`label_keyword`), not judged: labels are not part of the "
+    "property (measured: Emulsion.get_phasefield ignores `label` for an empty emulsion)",
 ]
+SUSPECTED: list = []  # inputs of the extended streams that make the unchanged tree fail (none found): reported, not judged
 RULE = ("one evaluation = one (droplet, grid, vmin/vmax) rendering or one roll / emulsion / dimension-mismatch / "
-        "mask-correspondence / sample-goal case; distinct = sha1 of the canonical case description; a case is "
+        "mask-correspondence (Cartesian or symmetric grid) / angle / sample-goal case; distinct = sha1 of the canonical case description; a case is "
         "non-trivial when the image is neither constant nor empty of inside cells (roll, emulsion, mask cases: "
         "at least one inside and one outside cell), sample goals always")
 
-DEPS = ["Proofs/C03.vo", "Model/Samples.vo"]
+DEPS = ["Proofs/C03.vo", "Proofs/RenderSym.vo", "Model/Samples.vo"]
 CLASSES = ["SphericalDroplet", "DiffuseDroplet", "PerturbedDroplet2D", "PerturbedDroplet3D",
            "PerturbedDroplet3DAxisSym"]
 VPAIRS = [(0.0, 1.0), (-1.0, 1.0), (0.25, 0.75), (1.0, 0.0), (2.0, -3.0), (0.5, 0.5), (0.1, 0.7), (-2.5, -0.5)]
@@ -86,15 +108,186 @@ def grid_dim(gs: dict) -> int:
     return {"polar": 2, "spherical": 3, "cylindrical": 3}[gs["family"]]
 
 
-def make_droplet(ds: dict):
+# ---- argument kinds (numeric types of the constructor / keyword arguments) and provenance of the droplet object.
+# A spec may carry ds["ctor"] = {"pos": <POS_KINDS>, "num": <NUM_KINDS>, "amp": <POS_KINDS>} and ds["prov"] in PROVENANCES;
+# a kind that cannot represent the value exactly (int for 0.5, float32 for 0.1) silently falls back to the default
+# kind, so the geometry of the spec is never changed by the choice of the type.
+POS_KINDS = ["ndarray", "list", "tuple", "int list", "float32 array", "strided view"]
+NUM_KINDS = ["float", "int", "np.float64", "np.float32", "0-d array", "np.int64"]
+PROVENANCES = ["fresh", "copy()", "copy.deepcopy", "pickle", "from_data (shared record)", "attributes assigned",
+               "emulsion member", "emulsion.copy() member", "unpickled emulsion member", "emulsion copy=False member",
+               "track member", "time course member", "rendered before on another grid"]
+
+
+def _f32_exact(x) -> bool:
+    return float(np.float32(x)) == float(x)
+
+
+def num_kind_used(x, kind: str) -> str:
+    if x is None:
+        return "None"
+    if kind in ("int", "np.int64"):
+        return kind if float(x).is_integer() and abs(float(x)) < 2 ** 53 else "float"
+    if kind == "np.float32":
+        return kind if _f32_exact(x) else "float"
+    return kind if kind in NUM_KINDS else "float"
+
+
+def as_num(x, kind: str):
+    k = num_kind_used(x, kind)
+    if k == "None":
+        return None
+    if k == "int":
+        return int(x)
+    if k == "np.int64":
+        return np.int64(int(x))
+    if k == "np.float64":
+        return np.float64(x)
+    if k == "np.float32":
+        return np.float32(x)
+    if k == "0-d array":
+        return np.array(float(x))
+    return float(x)
+
+
+def pos_kind_used(xs, kind: str) -> str:
+    if kind == "int list":
+        return kind if all(float(x).is_integer() for x in xs) else "ndarray"
+    if kind == "float32 array":
+        return kind if all(_f32_exact(x) for x in xs) else "ndarray"
+    return kind if kind in POS_KINDS else "ndarray"
+
+
+def as_vec(xs, kind: str):
+    k = pos_kind_used(xs, kind)
+    xs = [float(x) for x in xs]
+    if k == "list":
+        return xs
+    if k == "tuple":
+        return tuple(xs)
+    if k == "int list":
+        return [int(x) for x in xs]
+    if k == "float32 array":
+        return np.array(xs, dtype=np.float32)
+    if k == "strided view":  # a non-contiguous view into a larger array owned by the caller
+        big = np.zeros(2 * len(xs) + 1)
+        big[:] = -77.0
+        big[1::2] = xs
+        return big[1::2]
+    return np.array(xs, dtype=float)
+
+
+def _arr_state(a):
+    return lambda: (str(a.dtype), a.shape, a.tobytes())
+
+
+def _witness(name, obj):
+    """[(name, function returning the current state of the caller's object, state now)] for mutable argument objects"""
+    if isinstance(obj, np.ndarray):
+        out = [(name, _arr_state(obj), _arr_state(obj)())]
+        if obj.base is not None:
+            out.append((name + " (owner of the view)", _arr_state(obj.base), _arr_state(obj.base)()))
+        return out
+    if isinstance(obj, list):
+        return [(name, lambda: repr(obj), repr(obj))]
+    return []
+
+
+def witnesses_changed(wit) -> list[str]:
+    """names of the caller's objects whose state differs from the recorded one"""
+    return [name for name, fn, snap in wit if fn() != snap]
+
+
+def droplet_state(drop):
+    """everything a droplet object stores: class, record layout, record bytes"""
+    return (type(drop).__name__, str(drop.data.dtype), drop.data.tobytes())
+
+
+def construct_droplet(ds: dict, wit: list | None = None):
+    """the droplet of the spec, built with the argument kinds of ds["ctor"] (no provenance step)"""
     import droplets.droplets as dd
     cls = getattr(dd, ds["cls"])
-    pos = np.array(ds["position"], dtype=float)
-    if ds["cls"] == "SphericalDroplet":
-        return cls(pos, ds["radius"])
-    if ds["cls"] == "DiffuseDroplet":
-        return cls(pos, ds["radius"], ds["width"])
-    return cls(pos, ds["radius"], ds["width"], list(ds["amplitudes"]))
+    ck = ds.get("ctor") or {}
+    pos = as_vec(ds["position"], ck.get("pos", "ndarray"))
+    radius = as_num(ds["radius"], ck.get("num", "float"))
+    args = [pos, radius]
+    if ds["cls"] != "SphericalDroplet":
+        args.append(as_num(ds["width"], ck.get("num", "float")))
+    if ds["cls"].startswith("Perturbed"):
+        args.append(as_vec(ds["amplitudes"], ck.get("amp", "list")) if ck.get("amp", "list") != "list"
+                    else list(ds["amplitudes"]))
+    if wit is not None:
+        wit += _witness("position argument", pos)
+        if ds["cls"].startswith("Perturbed"):
+            wit += _witness("amplitudes argument", args[-1])
+    return cls(*args)
+
+
+def apply_provenance(drop, ds: dict, wit: list | None = None):
+    """the same droplet reached through another route (input_dimensions 3)"""
+    import copy as _copy
+    import pickle as _pickle
+    prov = ds.get("prov", "fresh")
+    if prov == "fresh":
+        return drop
+    from droplets.emulsions import Emulsion, EmulsionTimeCourse
+    keep = lambda name, o: wit.append((name, lambda: droplet_state(o), droplet_state(o))) if wit is not None else None  # noqa: E731
+    if prov == "copy()":
+        keep("the droplet that was copied", drop)
+        return drop.copy()
+    if prov == "copy.deepcopy":
+        keep("the droplet that was deep-copied", drop)
+        return _copy.deepcopy(drop)
+    if prov == "pickle":
+        return _pickle.loads(_pickle.dumps(drop))
+    if prov == "from_data (shared record)":
+        keep("the droplet sharing its record", drop)
+        return type(drop).from_data(drop.data)
+    if prov == "attributes assigned":
+        other = dict(ds)
+        other["position"] = [x + (1.5 if k == len(ds["position"]) - 1 or not ds["cls"].endswith("AxisSym") else 0.0)
+                             for k, x in enumerate(ds["position"])]
+        other["radius"] = ds["radius"] + 0.75
+        if "width" in ds:
+            other["width"] = 0.5 if ds["width"] is None else None
+        if "amplitudes" in ds:
+            other["amplitudes"] = [0.25] * len(ds["amplitudes"])
+        d2 = construct_droplet({k: v for k, v in other.items() if k != "ctor"})
+        ck = ds.get("ctor") or {}
+        d2.position = as_vec(ds["position"], ck.get("pos", "ndarray"))
+        d2.radius = as_num(ds["radius"], ck.get("num", "float"))
+        if "width" in ds and ds["cls"] != "SphericalDroplet":
+            d2.interface_width = as_num(ds["width"], ck.get("num", "float"))
+        if ds["cls"].startswith("Perturbed"):
+            d2.amplitudes = list(ds["amplitudes"])
+        return d2
+    if prov == "emulsion member":
+        keep("the droplet handed to Emulsion()", drop)
+        return Emulsion([drop])[0]
+    if prov == "emulsion.copy() member":
+        return Emulsion([drop, drop]).copy()[1]
+    if prov == "unpickled emulsion member":
+        return _pickle.loads(_pickle.dumps(Emulsion([drop])))[0]
+    if prov == "emulsion copy=False member":
+        e = Emulsion([drop], copy=False)
+        return e[0]
+    if prov == "track member":
+        from droplets.droplet_tracks import DropletTrack
+        return DropletTrack(droplets=[drop], times=[0]).droplets[0]
+    if prov == "time course member":
+        return EmulsionTimeCourse([Emulsion([drop])], [0.0])[0][0]
+    if prov == "rendered before on another grid":
+        from pde import CartesianGrid
+        dim = len(ds["position"])
+        with np.errstate(all="ignore"):
+            drop.get_phase_field(CartesianGrid([(-1, 2)] * dim, [2] * dim, periodic=[True] + [False] * (dim - 1)),
+                                 vmin=-3, vmax=5)
+        return drop
+    raise ValueError(prov)
+
+
+def make_droplet(ds: dict, wit: list | None = None):
+    return apply_provenance(construct_droplet(ds, wit), ds, wit)
 
 
 def exc_kind(e: BaseException) -> str:
@@ -232,42 +425,163 @@ def amp_sensitivity(ds: dict) -> float:
 # =========================================================================================
 # the property oracle for one rendering
 # =========================================================================================
+# dtypes handed to `_get_phase_field(grid, dtype)` besides float (public path) and bool (always rendered)
+EXTRA_DTYPES = {"float32": np.float32, "float16": np.float16, "float64": np.float64, "str f4": "f4",
+                "np.dtype(float32)": np.dtype("float32"), "int": int, "int8": np.int8, "uint8": np.uint8,
+                "np.bool_": np.bool_}
+
+
+def v_kind_used(vmin: float, vmax: float, kind: str) -> str:
+    """numeric type actually used for vmin / vmax: exact representation of both (and, for float32, of their
+    difference, which get_phase_field forms in the type of the arguments) or the default float"""
+    if num_kind_used(vmin, kind) != kind or num_kind_used(vmax, kind) != kind:
+        return "float"
+    if kind == "np.float32" and float(np.float32(vmax) - np.float32(vmin)) != vmax - vmin:
+        return "float"
+    return kind
+
+
+def judge_typed_image(x, name, inside, ok, w_eff, iface, dist, fail):
+    """`_get_phase_field(grid, dtype)` for a dtype other than float: result kind, range, inside/outside"""
+    want = np.dtype(EXTRA_DTYPES[name])
+    x = np.asarray(x)
+    if x.dtype != want:
+        fail(f"_get_phase_field(dtype={name}) returned dtype {x.dtype}")
+        return
+    if x.shape != dist.shape:
+        fail(f"_get_phase_field(dtype={name}) has shape {x.shape}, grid has {dist.shape}")
+        return
+    kind = x.dtype.kind
+    if kind == "b":
+        if np.any((x != inside) & ok):
+            idx = tuple(int(i) for i in np.argwhere((x != inside) & ok)[0])
+            fail(f"boolean image (dtype={name}) differs from `distance < interface distance`", cell=idx)
+        return
+    xf = x.astype(float)
+    if not np.all(np.isfinite(xf)):
+        fail(f"image of dtype {name} is not finite")
+        return
+    eps = float(np.finfo(x.dtype).eps) if kind == "f" else 0.0
+    if xf.min() < -8 * eps or xf.max() > 1 + 8 * eps:
+        fail(f"image of dtype {name} leaves [0, 1]", value=float(xf.min() if xf.min() < 0 else xf.max()))
+    if w_eff == 0:
+        bad = (xf != inside.astype(float)) & ok
+        if np.any(bad):
+            idx = tuple(int(i) for i in np.argwhere(bad)[0])
+            fail(f"sharp droplet rendered with dtype {name} is not the indicator", cell=idx, value=float(xf[idx]))
+    elif kind == "f":
+        with np.errstate(all="ignore"):
+            margin = 0.5 * np.abs(np.tanh((iface - dist) / w_eff))
+        res_ok = ok & (margin > 16 * eps)
+        bad = ((xf > 0.5) != inside) & res_ok
+        if np.any(bad):
+            idx = tuple(int(i) for i in np.argwhere(bad)[0])
+            fail(f"image of dtype {name}: cell is above the midpoint although outside (or vice versa)", cell=idx,
+                 value=float(xf[idx]), dist=float(dist[idx]), interface=float(iface[idx]))
+    else:
+        # integer image of a smooth profile = truncation: only the two levels, and level 1 only inside
+        if np.any((xf != 0) & (xf != 1)):
+            fail(f"integer image (dtype={name}) has values other than 0 and 1")
+        bad = (xf > 0.5) & ~inside & ok
+        if np.any(bad):
+            idx = tuple(int(i) for i in np.argwhere(bad)[0])
+            fail(f"integer image (dtype={name}) is 1 in a cell outside the interface", cell=idx)
+
+
 def check_render(case: dict, hist=None) -> list[dict]:
-    """All single-image clauses of the property text on the real implementation."""
-    gs, ds, vmin, vmax = case["grid"], case["droplet"], float(case["vmin"]), float(case["vmax"])
+    """All single-image clauses of the property text on the real implementation.  A result of the wrong kind
+    (class, dtype, shape, NaN, complex, undocumented exception) is a failure with this input, never a crash."""
     out = []
+    try:
+        _check_render(case, hist, out)
+    except Exception as e:  # the oracle itself could not digest what the implementation returned
+        out.append({"what": f"result of the wrong kind: the oracle could not evaluate it ({exc_kind(e)}: {e})",
+                    "check": "render", "input": case})
+    return out
+
+
+def _check_render(case: dict, hist, out: list) -> None:
+    gs, ds, vmin, vmax = case["grid"], case["droplet"], float(case["vmin"]), float(case["vmax"])
 
     def fail(what, **kw):
         out.append({"what": what, "check": "render", "input": case, **kw})
 
+    wit: list = []
     try:
         grid = make_grid(gs)
-        drop = make_droplet(ds)
+        drop = make_droplet(ds, wit)
     except Exception as e:  # valid inputs by construction
         if hist is not None:
             hist("exception", "construct:" + exc_kind(e))
         fail(f"constructing a valid droplet/grid raised {exc_kind(e)}: {e}")
-        return out
+        return
+    state0 = droplet_state(drop)
+    grid_state0 = json.dumps(grid.state, sort_keys=True, default=str)
+    vk = v_kind_used(vmin, vmax, case.get("vkind", "float"))
+    kw = {}
+    if not (case.get("vkw") == "omitted" and (vmin, vmax) == (0.0, 1.0)):
+        kw = {"vmin": as_num(vmin, vk), "vmax": as_num(vmax, vk)}
+    if "label" in case:
+        kw["label"] = case["label"]
+    extra = case.get("extra")
+    typed = res2 = None
     try:
         with np.errstate(all="ignore"):
-            f = np.asarray(drop.get_phase_field(grid, vmin=vmin, vmax=vmax).data)
+            res = drop.get_phase_field(grid, **kw)
             fb = np.asarray(drop._get_phase_field(grid, dtype=bool))
+            if extra:
+                dt = EXTRA_DTYPES[extra["dtype"]]
+                typed = drop._get_phase_field(grid, dt) if extra.get("how") == "pos" else \
+                    drop._get_phase_field(grid, dtype=dt)
+            if case.get("repeat"):
+                res2 = drop.get_phase_field(grid, **kw)
     except Exception as e:
         if hist is not None:
             hist("exception", "render:" + exc_kind(e))
         fail(f"rendering raised {exc_kind(e)}: {e}")
-        return out
+        return
     if hist is not None:
         hist("exception", "none")
+    # ---- the caller's objects are what they were
+    if droplet_state(drop) != state0:
+        fail("rendering changed the droplet object")
+    for name in witnesses_changed(wit):
+        fail(f"rendering changed the caller's object: {name}")
+    if json.dumps(grid.state, sort_keys=True, default=str) != grid_state0:
+        fail("rendering changed the grid object")
+    # ---- kind of the result
+    from pde import ScalarField
+    if not isinstance(res, ScalarField):
+        fail(f"get_phase_field returned {type(res).__name__}, documented: ScalarField")
+        return
+    if res.grid is not grid and res.grid != grid:
+        fail("the returned field lives on another grid")
+    f = np.asarray(res.data)
+    if f.dtype.kind != "f":
+        fail(f"field data has dtype {f.dtype}, expected real floating point")
+        return
+    if hist is not None and "label" in case:
+        hist("label_keyword", f"label={'None' if case['label'] is None else 'str'} -> field.label "
+                              f"{'kept' if res.label == case['label'] else 'differs (measured, not judged)'}")
     dist, angles, amb, typ = ref_geometry(gs, ds["position"])
     if f.shape != dist.shape or fb.shape != dist.shape:
         fail(f"field has shape {f.shape}, grid has {dist.shape}")
-        return out
+        return
+    if fb.dtype != np.dtype(bool):
+        fail(f"_get_phase_field(dtype=bool) returned dtype {fb.dtype}")
+        return
     # ---- finite
     if not np.all(np.isfinite(f)):
         idx = tuple(int(i) for i in np.argwhere(~np.isfinite(f))[0])
         fail("field is not finite", cell=idx, value=str(f[idx]))
-        return out
+        return
+    # ---- rendering again gives the same picture in fresh memory
+    if res2 is not None:
+        f2 = np.asarray(res2.data)
+        if f2.shape != f.shape or not np.array_equal(f2, f):
+            fail("rendering the same droplet twice gives different fields")
+        elif np.shares_memory(f2, f):
+            fail("two renderings share their memory")
     # ---- between vmin and vmax
     scale = max(abs(vmin), abs(vmax), abs(vmax - vmin))
     tol = 8 * EPS * scale
@@ -298,6 +612,8 @@ def check_render(case: dict, hist=None) -> list[dict]:
         idx = tuple(int(i) for i in np.argwhere((fb != inside) & ok)[0])
         fail("boolean image differs from `distance < interface distance`", cell=idx, image=bool(fb[idx]),
              dist=float(dist[idx]), interface=float(iface[idx]))
+    if typed is not None:
+        judge_typed_image(typed, extra["dtype"], inside, ok, w_eff, iface, dist, fail)
     v_in, v_out = vmax, vmin
     if w_eff == 0:
         exp_ = np.where(inside, v_in, v_out)
@@ -336,6 +652,7 @@ def check_render(case: dict, hist=None) -> list[dict]:
                 fail("value increases with distance", dist_pair=[float(dsrt[j]), float(dsrt[j + 1])],
                      value_pair=[float(fs[j]), float(fs[j + 1])])
     case["_nontrivial"] = bool(inside.any() and (~inside).any())
+    case["_knife_cells"] = int(knife.sum())
     if hist is not None and gs["family"] == "cylindrical" and gs["periodic_z"]:
         # measured, not judged: py-pde 0.58.0 wraps the Cartesian y component with the z period, i.e. never wraps z
         Lz = gs["bounds_z"][1] - gs["bounds_z"][0]
@@ -350,7 +667,6 @@ def check_render(case: dict, hist=None) -> list[dict]:
         hist("dependency_behaviour_periodic_cylinder",
              "distance differs from the z-periodic metric (py-pde never wraps z)" if differs
              else "same distances as the z-periodic metric")
-    return out
 
 
 def check_roll(case: dict, hist=None) -> list[dict]:
@@ -397,27 +713,106 @@ def check_roll(case: dict, hist=None) -> list[dict]:
     return out
 
 
+EMULSION_BUILDS = ["list", "generator", "append", "extend", "copy=False", "copy()", "pickle", "sum of two emulsions",
+                   "slice of a longer emulsion"]
+
+
+def make_emulsion(drops: list, how: str):
+    """the emulsion holding `drops` (in this order), reached through different routes"""
+    import pickle as _pickle
+    from droplets.emulsions import Emulsion
+    if how == "generator":
+        return Emulsion(d for d in drops)
+    if how == "append":
+        e = Emulsion()
+        for d in drops:
+            e.append(d)
+        return e
+    if how == "extend":
+        e = Emulsion()
+        e.extend(drops[:1])
+        e.extend(drops[1:])
+        return e
+    if how == "copy=False":
+        return Emulsion(drops, copy=False)
+    if how == "copy()":
+        return Emulsion(drops).copy()
+    if how == "pickle":
+        return _pickle.loads(_pickle.dumps(Emulsion(drops)))
+    if how == "sum of two emulsions":
+        k = len(drops) // 2
+        return Emulsion(drops[:k]) + Emulsion(drops[k:])
+    if how == "slice of a longer emulsion" and drops:
+        return Emulsion([drops[-1]] + list(drops) + [drops[0]])[1:-1]
+    return Emulsion(drops)
+
+
 def check_emulsion(case: dict, hist=None) -> list[dict]:
     """emulsion field = clip(sum of member fields, 0, 1), independent of member order; empty -> zeros"""
-    from droplets.emulsions import Emulsion
-    gs, dss, perm = case["grid"], case["droplets"], case["perm"]
     out = []
     try:
+        _check_emulsion(case, hist, out)
+    except Exception as e:
+        out.append({"what": f"result of the wrong kind: the oracle could not evaluate it ({exc_kind(e)}: {e})",
+                    "check": "emulsion", "input": case})
+    return out
+
+
+def _check_emulsion(case: dict, hist, out: list) -> None:
+    from droplets.emulsions import Emulsion
+    from pde import ScalarField
+    gs, dss, perm = case["grid"], case["droplets"], case["perm"]
+    how = case.get("build", "list")
+
+    def fail(what, **kw):
+        out.append({"what": what, "check": "emulsion", "input": case, **kw})
+
+    wit: list = []
+    try:
         grid = make_grid(gs)
-        drops = [make_droplet(d) for d in dss]
+        drops = [make_droplet(d, wit) for d in dss]
+        states0 = [droplet_state(d) for d in drops]
+        em = make_emulsion(drops, how)
+        if not isinstance(em, Emulsion) or len(em) != len(drops):
+            fail(f"building the emulsion ({how}) gives {type(em).__name__} of length {len(em)}")
+            return
+        em_states0 = [droplet_state(d) for d in em]
+        kw = {"label": case["label"]} if "label" in case else {}
         with np.errstate(all="ignore"):
-            f = np.asarray(Emulsion(drops).get_phasefield(grid).data, dtype=float)
-            fp = np.asarray(Emulsion([drops[i] for i in perm]).get_phasefield(grid).data, dtype=float)
+            res = em.get_phasefield(grid, **kw)
+            resp = Emulsion([drops[i] for i in perm]).get_phasefield(grid)
             members = [np.asarray(d.get_phase_field(grid).data, dtype=float) for d in drops]
     except Exception as e:
         if hist is not None:
             hist("exception", "emulsion:" + exc_kind(e))
-        return [{"what": f"emulsion rendering raised {exc_kind(e)}: {e}", "check": "emulsion", "input": case}]
+        fail(f"emulsion rendering raised {exc_kind(e)}: {e}")
+        return
+    # ---- the caller's objects are what they were
+    if [droplet_state(d) for d in drops] != states0:
+        fail("rendering the emulsion changed the caller's droplet objects")
+    if len(em) != len(drops) or [droplet_state(d) for d in em] != em_states0:
+        fail("rendering the emulsion changed the emulsion")
+    for name in witnesses_changed(wit):
+        fail(f"rendering the emulsion changed the caller's object: {name}")
+    # ---- kind of the result
+    if not isinstance(res, ScalarField) or not isinstance(resp, ScalarField):
+        fail(f"get_phasefield returned {type(res).__name__}, documented: ScalarField")
+        return
+    f, fp = np.asarray(res.data), np.asarray(resp.data)
+    if f.dtype.kind != "f" or fp.dtype.kind != "f":
+        fail(f"emulsion field data has dtype {f.dtype}, expected real floating point")
+        return
+    if hist is not None and "label" in case:
+        hist("label_keyword", f"emulsion label={'None' if case['label'] is None else 'str'} -> field.label "
+                              f"{'kept' if res.label == case['label'] else 'differs (measured, not judged)'}"
+                              + (" [empty emulsion]" if not dss else ""))
     shape = ref_geometry(gs, [0.0] * grid_dim(gs))[0].shape
-    if f.shape != shape:
-        return [{"what": f"emulsion field has shape {f.shape}", "check": "emulsion", "input": case}]
+    if f.shape != shape or fp.shape != shape:
+        fail(f"emulsion field has shape {f.shape}")
+        return
     if not np.all(np.isfinite(f)):
-        return [{"what": "emulsion field is not finite", "check": "emulsion", "input": case}]
+        fail("emulsion field is not finite")
+        return
     total = np.zeros(shape)
     for m in members:
         total = total + m
@@ -425,25 +820,23 @@ def check_emulsion(case: dict, hist=None) -> list[dict]:
     tol = 1e-12
     if np.any(np.abs(f - expect) > tol):
         idx = tuple(int(i) for i in np.argwhere(np.abs(f - expect) > tol)[0])
-        out.append({"what": "emulsion field is not clip(sum of member fields, 0, 1)", "check": "emulsion",
-                    "input": case, "cell": idx, "value": float(f[idx]), "expected": float(expect[idx]),
-                    "members": [float(m[idx]) for m in members]})
-    if np.any(np.abs(f - fp) > tol):
-        idx = tuple(int(i) for i in np.argwhere(np.abs(f - fp) > tol)[0])
-        out.append({"what": "emulsion field depends on the droplet order", "check": "emulsion", "input": case,
-                    "cell": idx, "value": float(f[idx]), "permuted": float(fp[idx])})
+        fail("emulsion field is not clip(sum of member fields, 0, 1)", cell=idx, value=float(f[idx]),
+             expected=float(expect[idx]), members=[float(m[idx]) for m in members][:8])
+    if not np.all(np.abs(f - fp) <= tol):
+        idx = tuple(int(i) for i in np.argwhere(~(np.abs(f - fp) <= tol))[0])
+        fail("emulsion field depends on the droplet order", cell=idx, value=float(f[idx]), permuted=float(fp[idx]))
     if f.size and (f.min() < 0 or f.max() > 1):
-        out.append({"what": "emulsion field leaves [0, 1]", "check": "emulsion", "input": case})
+        fail("emulsion field leaves [0, 1]")
     case["_nontrivial"] = bool(len(dss) > 0 and f.size and f.min() != f.max())
     case["_clipped"] = bool(total.size and total.max() > 1.0 + 1e-9)
-    return out
 
 
 def check_mismatch(case: dict, hist=None) -> list[dict]:
-    """droplet and grid of different dimension: documented ValueError"""
+    """droplet and grid of different dimension: documented ValueError, and the droplet is left as it was"""
     try:
         grid = make_grid(case["grid"])
         drop = make_droplet(case["droplet"])
+        state0 = droplet_state(drop)
     except Exception as e:
         return [{"what": f"constructing raised {exc_kind(e)}: {e}", "check": "mismatch", "input": case}]
     kinds = []
@@ -455,10 +848,17 @@ def check_mismatch(case: dict, hist=None) -> list[dict]:
             kinds.append(exc_kind(e))
     if hist is not None:
         hist("exception", "mismatch:" + kinds[0])
+    out = []
     if kinds != ["ValueError", "ValueError"]:
-        return [{"what": f"dimension mismatch gives {kinds}, documented: ValueError", "check": "mismatch",
-                 "input": case}]
-    return []
+        out.append({"what": f"dimension mismatch gives {kinds}, documented: ValueError", "check": "mismatch",
+                    "input": case})
+    try:
+        same = droplet_state(drop) == state0
+    except Exception:
+        same = False
+    if not same:
+        out.append({"what": "the rejected rendering changed the droplet object", "check": "mismatch", "input": case})
+    return out
 
 
 CHECKS = {"render": check_render, "roll": check_roll, "emulsion": check_emulsion, "mismatch": check_mismatch}
@@ -504,31 +904,92 @@ def dy(rng: random.Random, lo: float, hi: float, k: int = 6) -> float:
 
 
 def gen_cart_grid(rng, dim, dyadic=True, max_n=8, periodic=None):
-    bounds, shape = [], []
-    for _ in range(dim):
-        n = rng.randint(2, max_n)
-        if dyadic:
-            h = rng.choice([0.125, 0.25, 0.5, 0.5, 1.0, 1.0, 1.5, 2.0, 0.375])
-            lo = dy(rng, -4, 4)
+    """Cartesian grid: 1-cell and 2-cell axes, unequal cell counts, unequal spacing in both orders, origin
+    centred / shifted positive / entirely negative / anywhere (input_dimensions 2)"""
+    hs_all = [0.125, 0.25, 0.5, 0.5, 1.0, 1.0, 1.5, 2.0, 0.375] if dyadic else [0.1, 0.3, 1.0 / 3, 0.7, 1.1]
+    ns = [rng.choice([1, 2]) if rng.random() < 0.15 else rng.randint(2, max_n) for _ in range(dim)]
+    hs = [rng.choice(hs_all) for _ in range(dim)]
+    spacing = rng.choice(["any", "any", "equal", "larger first", "larger last"]) if dim > 1 else "any"
+    if spacing == "equal":
+        hs = [hs[0]] * dim
+    elif spacing != "any":
+        while len(set(hs)) == 1:
+            hs[rng.randrange(dim)] = rng.choice(hs_all)
+        hs.sort(reverse=(spacing == "larger first"))
+    origin = rng.choice(["any", "any", "centred", "positive", "negative"])
+    bounds = []
+    for n, h in zip(ns, hs):
+        off = dy(rng, 0.125, 4) if dyadic else round(rng.uniform(0.1, 3), 2)
+        if origin == "centred":
+            lo = -n * h / 2
+        elif origin == "positive":
+            lo = off
+        elif origin == "negative":
+            lo = -n * h - off
         else:
-            h = rng.choice([0.1, 0.3, 1.0 / 3, 0.7, 1.1])
-            lo = round(rng.uniform(-3, 3), 2)
+            lo = dy(rng, -4, 4) if dyadic else round(rng.uniform(-3, 3), 2)
         bounds.append([lo, lo + n * h])
-        shape.append(n)
     if periodic is None:
         periodic = [rng.random() < 0.5 for _ in range(dim)]
-    return {"family": "cartesian", "bounds": bounds, "shape": shape, "periodic": list(periodic)}
+    return {"family": "cartesian", "bounds": bounds, "shape": ns, "periodic": list(periodic)}
+
+
+def grid_tags(gs: dict) -> dict:
+    """classification of the grid geometry for the evidence histogram"""
+    t = {}
+    fam = gs["family"]
+    if fam == "cartesian":
+        b, ns = gs["bounds"], gs["shape"]
+        hs = [(hi - lo) / n for (lo, hi), n in zip(b, ns)]
+        if all(lo == -hi for lo, hi in b):
+            t["grid_origin"] = "centred box"
+        elif all(lo > 0 for lo, hi in b):
+            t["grid_origin"] = "entirely positive coordinates"
+        elif all(hi < 0 for lo, hi in b):
+            t["grid_origin"] = "entirely negative coordinates"
+        elif all(lo == 0 for lo, hi in b):
+            t["grid_origin"] = "lower corner at the origin"
+        else:
+            t["grid_origin"] = "other (non-zero origin)"
+        if len(ns) > 1:
+            t["grid_spacing_per_axis"] = ("equal" if len(set(hs)) == 1 else
+                                          ("larger first" if hs[0] > hs[-1] else
+                                           ("larger last" if hs[0] < hs[-1] else "unequal, ends equal")))
+            t["grid_cells_per_axis"] = ("equal" if len(set(ns)) == 1 else
+                                        ("more first" if ns[0] > ns[-1] else
+                                         ("more last" if ns[0] < ns[-1] else "unequal, ends equal")))
+        t["grid_smallest_axis"] = "1 cell" if min(ns) == 1 else ("2 cells" if min(ns) == 2 else ">= 3 cells")
+    elif fam in ("polar", "spherical"):
+        t["grid_inner_radius"] = fam + (" inner radius 0" if gs["radius"][0] == 0 else " inner radius > 0")
+        t["grid_smallest_axis"] = "1 cell" if gs["shape"] == 1 else ("2 cells" if gs["shape"] == 2 else ">= 3 cells")
+    else:
+        nr, nz = gs["shape"]
+        dr, dz = gs["radius"] / nr, (gs["bounds_z"][1] - gs["bounds_z"][0]) / nz
+        t["cyl_dr_vs_dz"] = "dr < dz" if dr < dz else ("dr > dz" if dr > dz else "dr = dz")
+        t["cyl_cells"] = "nz > nr" if nz > nr else ("nz < nr" if nz < nr else "nz = nr")
+        t["cyl_geometry"] = gs.get("geometry", "generic")
+        t["cyl_z_origin"] = ("z from 0" if gs["bounds_z"][0] == 0 else
+                             ("z entirely negative" if gs["bounds_z"][1] < 0 else
+                              ("z entirely positive" if gs["bounds_z"][0] > 0 else "z straddles 0")))
+        t["grid_smallest_axis"] = "1 cell" if min(nr, nz) == 1 else ("2 cells" if min(nr, nz) == 2 else ">= 3 cells")
+    return t
 
 
 def gen_centre(rng, gs, dyadic=True):
+    """centre of a droplet on a Cartesian grid: cell centres / faces / vertices, next to (and beyond) the faces and
+    corners of the periodic axes, outside the box"""
+    force = rng.random()
+    force = "centre" if force < 0.08 else ("vertex" if force < 0.16 else ("near periodic faces" if force < 0.3 else None))
     pos = []
     for (lo, hi), n, per in zip(gs["bounds"], gs["shape"], gs["periodic"]):
         L, h = hi - lo, (hi - lo) / n
         mode = rng.random()
-        if mode < 0.3:  # exactly on a cell centre
+        if force == "centre" or (force is None and mode < 0.3):  # exactly on a cell centre
             x = lo + (rng.randrange(n) + 0.5) * h
-        elif mode < 0.4:  # on a cell boundary
+        elif force == "vertex" or (force is None and mode < 0.4):  # on a cell boundary
             x = lo + rng.randrange(n + 1) * h
+        elif force == "near periodic faces" and per:  # on / next to the lower or upper face of a periodic axis
+            x = rng.choice([lo, hi]) + rng.choice([0.0, 0.5, -0.5, 0.25, -0.25, 1.0, -1.0]) * h
         elif dyadic:
             x = dy(rng, lo, hi)
         else:
@@ -539,6 +1000,44 @@ def gen_centre(rng, gs, dyadic=True):
             x += rng.choice([-1, 1]) * h * rng.choice([0.5, 1, 2])
         pos.append(x)
     return pos
+
+
+def centre_tags(gs: dict, pos, radius) -> dict:
+    """where the droplet sits relative to cells, faces and corners of a Cartesian grid (for the histogram)"""
+    if gs["family"] != "cartesian":
+        return {}
+    d = len(pos)
+    on_c = on_f = out_p = out_n = 0
+    crossed, touch = [], 0
+    for k, ((lo, hi), n, per, x) in enumerate(zip(gs["bounds"], gs["shape"], gs["periodic"], pos)):
+        L, h = hi - lo, (hi - lo) / n
+        t = (x - lo) / h
+        if t == math.floor(t):
+            on_f += 1
+        elif t - math.floor(t) == 0.5:
+            on_c += 1
+        if x < lo or x > hi:
+            out_p += per
+            out_n += not per
+        if per:
+            xw = lo + (x - lo) % L
+            if radius > 0 and xw - radius < lo:
+                crossed.append(f"{d}-d axis {k} lower face")
+            if radius > 0 and xw + radius > hi:
+                crossed.append(f"{d}-d axis {k} upper face")
+        elif radius > 0 and (x - radius == lo or x + radius == hi) and lo <= x <= hi:
+            touch += 1
+    t = {"centre_on": ("a cell centre (every axis)" if on_c == d else
+                       ("a cell vertex (on a face in every axis)" if on_f == d else
+                        ("a cell face / edge (some axes)" if on_f else "generic point"))),
+         "centre_vs_box": ("outside across a periodic corner (>= 2 periodic axes)" if out_p >= 2 else
+                           ("outside on a periodic axis" if out_p else
+                            ("outside on a non-periodic axis" if out_n else "inside the box"))),
+         "touches_nonperiodic_face_exactly": touch > 0}
+    axes_crossed = {c.split(" axis ")[1][0] for c in crossed}
+    t["periodic_faces_crossed"] = crossed + ([f"{d}-d corner: faces of {len(axes_crossed)} periodic axes"]
+                                             if len(axes_crossed) >= 2 else []) or ["none"]
+    return t
 
 
 def gen_radius(rng, gs, pos, dyadic=True):
@@ -565,13 +1064,14 @@ def gen_width(rng, dyadic=True):
     return rng.choice([2.0 ** -6, 0.125, 0.25, 0.5, 1.0, 2.0, 4.0]) if dyadic else rng.choice([0.01, 0.3, 0.77, 1.9])
 
 
+AMP_LENGTHS = {"PerturbedDroplet2D": [0, 1, 2, 2, 3, 4, 4, 5, 6, 7], "PerturbedDroplet3D": [0, 1, 2, 3, 3, 5, 8, 8, 15],
+               "PerturbedDroplet3DAxisSym": [0, 1, 2, 3, 4, 5]}
+
+
 def gen_amplitudes(rng, cls):
-    if cls == "PerturbedDroplet2D":
-        n = rng.choice([0, 1, 2, 2, 4, 4, 6, 3])
-    elif cls == "PerturbedDroplet3D":
-        n = rng.choice([0, 3, 3, 8, 8, 15, 5])
-    else:
-        n = rng.choice([0, 1, 2, 3, 5])
+    """amplitude vectors of length 0, 1, odd, even (complete and incomplete highest mode), all zero, only / also
+    the last entry non-zero"""
+    n = rng.choice(AMP_LENGTHS[cls])
     m = rng.random()
     out = []
     for _ in range(n):
@@ -582,10 +1082,41 @@ def gen_amplitudes(rng, cls):
         else:
             a = rng.choice([0.0, 0.0, dy(rng, -0.25, 0.25), dy(rng, -1, 1), rng.uniform(-0.3, 0.3)])
         out.append(a)
+    last = rng.random()
+    if n and m >= 0.15 and last < 0.3:
+        nz = rng.choice([0.25, -0.25, 0.5, -0.125, 0.375])
+        if last < 0.12:
+            out = [0.0] * (n - 1) + [nz]  # only the last entry (for PerturbedDroplet2D of odd length: an unpaired sine)
+        elif out[-1] == 0:
+            out[-1] = nz
     return out
 
 
-def gen_droplet(rng, cls, gs, dyadic=True, on_axis=False):
+def amp_tags(ds: dict) -> dict:
+    if "amplitudes" not in ds:
+        return {}
+    a = ds["amplitudes"]
+    n = len(a)
+    short = {"PerturbedDroplet2D": "2D", "PerturbedDroplet3D": "3D", "PerturbedDroplet3DAxisSym": "AxisSym"}[ds["cls"]]
+    if n == 0:
+        kind = "empty"
+    elif not any(a):
+        kind = "all zero"
+    elif not any(a[:-1]):
+        kind = "only the last entry non-zero"
+    elif a[-1] != 0:
+        kind = "last entry non-zero"
+    else:
+        kind = "last entry zero"
+    t = {"amplitudes_length": f"{short}: {n}", "amplitudes_content": kind}
+    if short == "2D":
+        t["amplitudes_2D_parity"] = ("length 0" if n == 0 else
+                                     (("odd length" if n % 2 else "even length") +
+                                      (", last entry non-zero" if a[-1] != 0 else ", last entry zero")))
+    return t
+
+
+def gen_droplet(rng, cls, gs, dyadic=True, on_axis=False, kinds=True):
     fam = gs["family"]
     if fam == "cartesian":
         pos = gen_centre(rng, gs, dyadic)
@@ -599,21 +1130,65 @@ def gen_droplet(rng, cls, gs, dyadic=True, on_axis=False):
         z0, z1 = gs["bounds_z"]
         hz = (z1 - z0) / gs["shape"][1]
         m = rng.random()
-        z = (z0 + (rng.randrange(gs["shape"][1]) + 0.5) * hz) if m < 0.3 else (dy(rng, z0, z1) if dyadic else rng.uniform(z0, z1))
+        if m < 0.3:
+            z = z0 + (rng.randrange(gs["shape"][1]) + 0.5) * hz
+        elif m < 0.4:
+            z = z0 + rng.randrange(gs["shape"][1] + 1) * hz
+        else:
+            z = dy(rng, z0, z1) if dyadic else rng.uniform(z0, z1)
         if gs["periodic_z"] and rng.random() < 0.2:
             z += rng.choice([-1, 1]) * (z1 - z0)
         pos = [0.0, 0.0, z]
     if fam == "cartesian":
         radius = gen_radius(rng, gs, pos, dyadic)
+        free = [k for k, p in enumerate(gs["periodic"]) if not p and not (on_axis and k < 2)]
+        if free and radius > 0 and rng.random() < 0.08:  # touching (not crossing) a non-periodic face
+            k = rng.choice(free)
+            lo, hi = gs["bounds"][k]
+            if radius <= hi - lo:
+                pos[k] = lo + radius if rng.random() < 0.5 else hi - radius
     else:
         ext = gs["radius"][1] if fam in ("polar", "spherical") else max(gs["radius"], gs["bounds_z"][1] - gs["bounds_z"][0])
         radius = rng.choice([0.0, 2.0 ** -6, ext / 2, dy(rng, 0.125, ext), dy(rng, 0.125, ext), 2 * ext])
+        if fam in ("polar", "spherical") and rng.random() < 0.15:  # exactly the radius of a cell centre / a cell face
+            r0, r1 = gs["radius"]
+            radius = r0 + rng.choice([0.5, 1.0]) * (rng.randrange(gs["shape"]) + 1) * (r1 - r0) / gs["shape"]
     ds = {"cls": cls, "position": pos, "radius": radius}
     if cls != "SphericalDroplet":
         ds["width"] = gen_width(rng, dyadic)
     if cls.startswith("Perturbed"):
         ds["amplitudes"] = gen_amplitudes(rng, cls)
+    if kinds:
+        if rng.random() < 0.4:  # numeric types of the constructor arguments
+            ds["ctor"] = {"pos": rng.choice(POS_KINDS), "num": rng.choice(NUM_KINDS),
+                          "amp": rng.choice(["list"] + POS_KINDS)}
+        if rng.random() < 0.4:  # provenance of the object
+            ds["prov"] = rng.choice(PROVENANCES[1:])
     return ds
+
+
+def gen_sym_grid(rng, fam, exact_cells=False):
+    """polar / spherical / cylindrical grid: 1-cell axes, inner radius > 0, narrow finely sliced and flat wide
+    cylinders, dz != dr, z range not starting at 0; exact_cells: spacings are dyadic (for the exact correspondence)"""
+    if fam in ("polar", "spherical"):
+        r0 = rng.choice([0.0, 0.0, 0.5 if fam == "polar" else 1.0])
+        n = rng.randint(1, 8)
+        ext = n * rng.choice([0.25, 0.5, 0.5, 1.0, 0.375]) if exact_cells else rng.choice([2.0, 4.0, 3.0])
+        return {"family": fam, "radius": [r0, r0 + ext], "shape": n}
+    geo = rng.choice(["generic", "generic", "generic", "narrow, finely sliced", "flat, wide", "one or two cells"])
+    if geo == "narrow, finely sliced":
+        radius, nr, nz, hz = rng.choice([0.5, 1.0]), rng.choice([1, 2, 3]), rng.randint(10, 24), rng.choice([0.125, 0.25])
+    elif geo == "flat, wide":
+        radius, nr, nz, hz = rng.choice([4.0, 6.0, 8.0]), rng.randint(8, 12), rng.choice([1, 2, 3]), rng.choice([1.0, 2.0])
+    elif geo == "one or two cells":
+        radius, nr, nz, hz = rng.choice([1.0, 2.0]), rng.choice([1, 2]), rng.choice([1, 2]), rng.choice([0.5, 1.0, 2.0])
+    else:
+        radius, nr, nz, hz = rng.choice([1.0, 2.0, 3.0, 1.5]), rng.randint(2, 6), rng.randint(2, 8), rng.choice([0.25, 0.5, 1.0])
+    if exact_cells:
+        radius = nr * rng.choice([0.125, 0.25, 0.5] if geo == "narrow, finely sliced" else [0.25, 0.5, 0.5, 1.0, 0.75])
+    z0 = rng.choice([dy(rng, -2, 2), dy(rng, -2, 2), 0.0, -nz * hz - 1.0, 1.5])
+    return {"family": "cylindrical", "radius": radius, "bounds_z": [z0, z0 + nz * hz], "shape": [nr, nz],
+            "periodic_z": rng.random() < 0.5, "geometry": geo}
 
 
 def gen_grid_for(rng, cls, dyadic=True):
@@ -638,17 +1213,40 @@ def gen_grid_for(rng, cls, dyadic=True):
             lo = -(n // 2) * h - off
             gs["bounds"][k] = [lo, lo + n * h]
         return gs, True
-    if fam == "polar":
-        r0 = rng.choice([0.0, 0.0, 0.5])
-        return {"family": "polar", "radius": [r0, r0 + rng.choice([2.0, 4.0, 3.0])], "shape": rng.randint(2, 8)}, False
-    if fam == "spherical":
-        r0 = rng.choice([0.0, 0.0, 1.0])
-        return {"family": "spherical", "radius": [r0, r0 + rng.choice([2.0, 4.0, 3.0])], "shape": rng.randint(2, 8)}, False
-    nz = rng.randint(2, 8)
-    hz = rng.choice([0.25, 0.5, 1.0])
-    z0 = dy(rng, -2, 2)
-    return {"family": "cylindrical", "radius": rng.choice([1.0, 2.0, 3.0, 1.5]), "bounds_z": [z0, z0 + nz * hz],
-            "shape": [rng.randint(2, 6), nz], "periodic_z": rng.random() < 0.5}, False
+    return gen_sym_grid(rng, fam), False
+
+
+SCALES = [2.0 ** -30, 2.0 ** -10, 2.0 ** 10, 2.0 ** 30]
+
+
+def scale_geometry(gs: dict, ds: dict, f: float) -> None:
+    """multiply every length of the case (grid, centre, radius, width) by the power of two f, in place: the picture
+    is the same, all coordinates stay exactly representable"""
+    if gs["family"] == "cartesian":
+        gs["bounds"] = [[lo * f, hi * f] for lo, hi in gs["bounds"]]
+    elif gs["family"] in ("polar", "spherical"):
+        gs["radius"] = [r * f for r in gs["radius"]]
+    else:
+        gs["radius"] = gs["radius"] * f
+        gs["bounds_z"] = [z * f for z in gs["bounds_z"]]
+    gs["length_scale"] = f
+    ds["position"] = [x * f for x in ds["position"]]
+    ds["radius"] = ds["radius"] * f
+    if ds.get("width") is not None:
+        ds["width"] = ds["width"] * f
+
+
+def compatible_classes(gs: dict, on_axis: bool) -> list[str]:
+    """droplet classes that can be rendered on the grid (for emulsions mixing classes)"""
+    d = grid_dim(gs)
+    if d == 1:
+        return ["SphericalDroplet", "DiffuseDroplet"]
+    if d == 2:
+        return ["SphericalDroplet", "DiffuseDroplet", "PerturbedDroplet2D"]
+    out = ["SphericalDroplet", "DiffuseDroplet", "PerturbedDroplet3D"]
+    if on_axis or gs["family"] != "cartesian":
+        out.append("PerturbedDroplet3DAxisSym")
+    return out
 
 
 CORPUS_RENDER = [
@@ -682,7 +1280,21 @@ def gen_render_cases(rng, n):
         gs, on_axis = gen_grid_for(rng, cls, dyadic)
         ds = gen_droplet(rng, cls, gs, dyadic, on_axis)
         vmin, vmax = VPAIRS[rng.randrange(len(VPAIRS))] if rng.random() < 0.8 else (round(rng.uniform(-2, 2), 3), round(rng.uniform(-2, 2), 3))
-        cases.append({"grid": gs, "droplet": ds, "vmin": vmin, "vmax": vmax})
+        if rng.random() < 0.12:  # the same picture in units 2^-30 ... 2^30
+            scale_geometry(gs, ds, rng.choice(SCALES))
+        case = {"grid": gs, "droplet": ds, "vmin": vmin, "vmax": vmax}
+        if rng.random() < 0.4:  # numeric type of vmin / vmax
+            case["vkind"] = rng.choice(NUM_KINDS[1:])
+        if (vmin, vmax) == (0.0, 1.0) and rng.random() < 0.5:  # keywords left at their defaults
+            case["vkw"] = "omitted"
+        r = rng.random()
+        if r < 0.3:
+            case["label"] = None if r < 0.15 else "phase field"
+        if rng.random() < 0.35:  # the image in another dtype (`_get_phase_field(grid, dtype)`)
+            case["extra"] = {"dtype": rng.choice(sorted(EXTRA_DTYPES)), "how": rng.choice(["kw", "pos"])}
+        if rng.random() < 0.25:
+            case["repeat"] = True
+        cases.append(case)
     return cases
 
 
@@ -709,7 +1321,9 @@ def gen_roll_cases(rng, n):
         ds = gen_droplet(rng, cls, gs, exact, on_axis)
         if not exact and ds.get("width", 0.0) == 0.0 and cls != "SphericalDroplet":
             ds["width"] = 0.3
-        k = rng.choice([-3, -2, -1, 1, 2, 3, gs["shape"][ax], 2 * gs["shape"][ax] + 1])
+        if rng.random() < 0.12:
+            scale_geometry(gs, ds, rng.choice(SCALES))
+        k = rng.choice([-3, -2, -1, 1, 2, 3, gs["shape"][ax], 2 * gs["shape"][ax] + 1, -gs["shape"][ax] - 1])
         vmin, vmax = VPAIRS[rng.randrange(len(VPAIRS))]
         cases.append({"grid": gs, "droplet": ds, "axis": ax, "k": k, "exact": bool(exact), "vmin": vmin, "vmax": vmax})
     return cases
@@ -724,24 +1338,34 @@ def gen_emulsion_cases(rng, n):
                                   {"cls": "DiffuseDroplet", "position": [2.25, 2], "radius": 1.5, "width": 0.5},
                                   {"cls": "DiffuseDroplet", "position": [2, 1.75], "radius": 1.0, "width": None}],
          "perm": [2, 0, 1]},
+        {"grid": g2, "droplets": [], "perm": [], "label": "empty", "build": "append"},
     ]
     for i in range(n):
         cls = CLASSES[i % len(CLASSES)]
         gs, on_axis = gen_grid_for(rng, cls, True)
-        m = rng.choice([1, 2, 2, 3, 3, 4, 5])
+        m = rng.choice([0, 1, 1, 2, 2, 3, 3, 4, 5, rng.randint(6, 12), rng.randint(13, 40)])
+        mixed = m >= 2 and rng.random() < 0.3  # members of different classes (same dimension)
+        compat = compatible_classes(gs, on_axis)
         base = gen_droplet(rng, cls, gs, True, on_axis)
         dss = []
         for j in range(m):
-            d = gen_droplet(rng, cls, gs, True, on_axis)
+            c = rng.choice(compat) if mixed else cls
+            d = gen_droplet(rng, c, gs, True, on_axis, kinds=m <= 5)
             if rng.random() < 0.5:  # overlapping members: the clip matters
                 d["position"] = list(base["position"])
                 d["radius"] = max(base["radius"], 0.5)
-            if cls.startswith("Perturbed"):
+            if c.startswith("Perturbed") and not mixed:
                 d["amplitudes"] = (list(d["amplitudes"]) + [0.0] * 20)[:len(base["amplitudes"])]
             dss.append(d)
         perm = list(range(m))
         rng.shuffle(perm)
-        cases.append({"grid": gs, "droplets": dss, "perm": perm})
+        case = {"grid": gs, "droplets": dss, "perm": perm}
+        if not mixed and rng.random() < 0.6:  # route by which the emulsion object came about
+            case["build"] = rng.choice(EMULSION_BUILDS[1:])
+        r = rng.random()
+        if r < 0.3:
+            case["label"] = None if r < 0.15 else "emulsion"
+        cases.append(case)
     return cases
 
 
@@ -936,6 +1560,10 @@ def render_mask(variant: int, gs, pos, radius, rng):
         return f > 1.0, (f + 1) / 4
     if variant == 3:
         return np.asarray(DiffuseDroplet(pos, radius, 0.5)._get_phase_field(grid, dtype=bool)), None
+    if variant == 5 and len(pos) == 3:
+        from droplets.droplets import PerturbedDroplet3DAxisSym
+        f = np.asarray(PerturbedDroplet3DAxisSym(pos, radius, 0.0, [0.0, 0.0, 0.0]).get_phase_field(grid).data)
+        return f > 0.5, f
     if len(pos) == 2:
         f = np.asarray(PerturbedDroplet2D(pos, radius, 0.0, [0.0, 0.0])._get_phase_field(grid))
         return f > 0.5, f
@@ -995,6 +1623,10 @@ def correspondence_masks(ctx, rng):
         ctx.count("mask_variant", ["Spherical bool", "Spherical float", "Diffuse w=0 scaled", "Diffuse w>0 bool",
                                    "Perturbed zero-amplitude w=0"][variant])
         ctx.count("mask_fill", "empty" if not np.any(m) else ("full" if np.all(m) else "partial"))
+        for key, val in list(grid_tags(gs).items()) + list(centre_tags(gs, pos, r).items()):
+            for v in (val if isinstance(val, list) else [val]):
+                ctx.count("mask_" + key, v)
+        ctx.count("mask_radius", "0" if r == 0 else ("tiny" if r <= 2 ** -6 else "regular"))
     # emulsions of sharp droplets: cellwise OR
     ne = ctx.scale(160, 1200)
     for i in range(ne):
@@ -1002,7 +1634,7 @@ def correspondence_masks(ctx, rng):
         gs = gen_cart_grid(rng, d, True, max_n=8 if d < 3 else 5)
         if not cd_ok(gs):
             continue
-        k = rng.choice([0, 1, 2, 2, 3, 4]) if i else 0
+        k = rng.choice([0, 1, 2, 2, 3, 4, rng.randint(5, 12)]) if i else 0
         members = []
         for _ in range(k):
             pos = gen_centre(rng, gs, True)
@@ -1034,7 +1666,7 @@ def correspondence_masks(ctx, rng):
         lits.append(f"({grid_lit(gs)}, {ds_lit}, {mask_lit(m)})")
         metas.append(meta)
         ctx.case(["mask-emulsion", gs, members], nontrivial=bool(np.any(m) and not np.all(m)))
-        ctx.count("mask_emulsion_members", k)
+        ctx.count("mask_emulsion_members", k if k <= 4 else "5..12")
     ctx.sample({"mask_case": lits[2][:400]})
     bad = vlib.run_cases(ctx, "mask", HEADER_MASK, lits, "agree", shard=ctx.scale(40, 120))
     if bad:
@@ -1042,6 +1674,155 @@ def correspondence_masks(ctx, rng):
                           f"{len(bad)} case(s), first: {json.dumps(metas[bad[0]])[:300]}")
         ctx.extra["mask_disagreements"] = [metas[b] for b in bad[:5]]
     return [metas[b] for b in bad]
+
+
+HEADER_SYM = """From Coq Require Import ZArith QArith List Bool.
+Import ListNotations.
+From PD Require Import Model.Grid Model.Render Model.LocateSym Model.RenderSym.
+Local Open Scope Q_scope.
+Fixpoint beq_list (a b : list bool) : bool :=
+  match a, b with
+  | [], [] => true
+  | x :: a', y :: b' => Bool.eqb x y && beq_list a' b'
+  | _, _ => false
+  end.
+Definition cyl (nr nz : Z) (R zlo zhi : Q) (p : bool) : cylgrid :=
+  {| cg_nr := nr; cg_nz := nz; cg_R := R; cg_zlo := zlo; cg_zhi := zhi; cg_per := p |}.
+(* a centred sphere on a PolarSymGrid / SphericalSymGrid (inner radius, spacing, droplet radius, cells, image);
+   on-axis spheres (centre z, radius) on a CylindricalSymGrid (image in C order: r slow, z fast) *)
+Inductive symcase :=
+| Radial (r_lo dr R : Q) (n : nat) (m : list bool)
+| Cyl (g : cylgrid) (ds : list (Q * Q)) (m : list bool).
+Definition agree (c : symcase) : bool :=
+  match c with
+  | Radial r_lo dr R n m => beq_list (radial_mask r_lo dr R n) m
+  | Cyl g ds m => beq_list (cyl_mask g ds) m
+  end.
+"""
+
+
+def sym_cd_ok(gs) -> bool:
+    """py-pde's cell centres are exactly the rationals of the model for this polar / spherical / cylindrical grid"""
+    g = make_grid(gs)
+    if gs["family"] in ("polar", "spherical"):
+        r0, r1 = (Fraction(x) for x in gs["radius"])
+        h = (r1 - r0) / gs["shape"]
+        return [Fraction(float(x)) for x in g.axes_coords[0]] == [r0 + (i + Fraction(1, 2)) * h for i in range(gs["shape"])]
+    nr, nz = gs["shape"]
+    hr = Fraction(gs["radius"]) / nr
+    z0, z1 = (Fraction(x) for x in gs["bounds_z"])
+    hz = (z1 - z0) / nz
+    return ([Fraction(float(x)) for x in g.axes_coords[0]] == [(i + Fraction(1, 2)) * hr for i in range(nr)] and
+            [Fraction(float(x)) for x in g.axes_coords[1]] == [z0 + (j + Fraction(1, 2)) * hz for j in range(nz)])
+
+
+def exact_sym_mask(gs, members, knife=None) -> np.ndarray:
+    """union of the indicators |cell centre - droplet centre|^2 < R^2 (exact rationals); members = [(z, R)]"""
+    if gs["family"] in ("polar", "spherical"):
+        r0, r1 = (Fraction(x) for x in gs["radius"])
+        h = (r1 - r0) / gs["shape"]
+        d2 = np.array([(r0 + (i + Fraction(1, 2)) * h) ** 2 for i in range(gs["shape"])], dtype=object)
+        per_member = [d2 for _ in members]
+    else:
+        nr, nz = gs["shape"]
+        hr = Fraction(gs["radius"]) / nr
+        z0, z1 = (Fraction(x) for x in gs["bounds_z"])
+        hz = (z1 - z0) / nz
+        per_member = [np.array([[((i + Fraction(1, 2)) * hr) ** 2 + (z0 + (j + Fraction(1, 2)) * hz - Fraction(c)) ** 2
+                                 for j in range(nz)] for i in range(nr)], dtype=object) for c, _ in members]
+    shape = (gs["shape"],) if gs["family"] in ("polar", "spherical") else tuple(gs["shape"])
+    out = np.zeros(shape, bool)
+    for d2, (_, R) in zip(per_member, members):
+        R = Fraction(R)
+        if R < 0:
+            continue
+        out |= np.array(d2 < R * R, dtype=bool)
+        if knife is not None:
+            knife[0] += int(np.sum(d2 == R * R))
+    return out
+
+
+SYM_VARIANTS = ["Spherical bool", "Spherical float", "Diffuse w=0 scaled", "Diffuse w>0 bool",
+                "Perturbed2D/3D zero-amplitude w=0", "Perturbed3DAxisSym zero-amplitude w=0 (scaled field)"]
+
+
+def correspondence_sym_masks(ctx, rng):
+    """sharp images of centred / on-axis droplets on PolarSym, SphericalSym and CylindricalSym grids vs
+    Model/RenderSym.radial_mask / cyl_mask (exact, coarse-dyadic inputs), through six entry points"""
+    from droplets.droplets import DiffuseDroplet, SphericalDroplet
+    from droplets.emulsions import Emulsion
+    n = ctx.scale(360, 2400)
+    lits, metas = [], []
+    for i in range(n):
+        fam = ("polar", "spherical", "cylindrical", "cylindrical")[i % 4]
+        gs = gen_sym_grid(rng, fam, exact_cells=True)
+        if not sym_cd_ok(gs):
+            ctx.count("sym_mask_case_skipped", "cell centres not exactly dyadic")
+            continue
+        k = 1 if (fam != "cylindrical" or i % 8 < 6) else rng.choice([0, 2, 3, 4])
+        members = []
+        for _ in range(k):
+            d = gen_droplet(rng, "SphericalDroplet", gs, True, kinds=False)
+            members.append((d["position"][-1], d["radius"]))
+        variant = (i // 4) % 6
+        if fam == "polar" and variant == 5:
+            variant = 4
+        meta = {"grid": gs, "members": members, "variant": variant if k == 1 else "emulsion"}
+        try:
+            if k == 1:
+                pos = [0.0, 0.0] if fam == "polar" else [0.0, 0.0, members[0][0]]
+                m, f = render_mask(variant, gs, pos, members[0][1], rng)
+            else:
+                grid = make_grid(gs)
+                mk = (lambda z, R: SphericalDroplet([0.0, 0.0, z], R)) if i % 16 < 8 else \
+                    (lambda z, R: DiffuseDroplet([0.0, 0.0, z], R, 0.0))
+                f = np.asarray(Emulsion([mk(z, R) for z, R in members]).get_phasefield(grid).data)
+                m = f > 0.5
+        except Exception as e:
+            ctx.count("exception", "sym-mask:" + exc_kind(e))
+            ctx.violations.append({"what": f"sharp rendering raised {exc_kind(e)}: {e}", "check": "symmask",
+                                   "input": meta, "found": True})
+            continue
+        m = np.asarray(m)
+        if f is not None and not np.all((np.asarray(f) == 0.0) | (np.asarray(f) == 1.0)):
+            ctx.violations.append({"what": "sharp droplet has values other than the two levels", "check": "symmask",
+                                   "input": meta, "found": True})
+        kn = [0]
+        ex = exact_sym_mask(gs, members, kn)
+        if m.shape != ex.shape or m.dtype != np.dtype(bool) or not np.array_equal(ex, m):
+            ctx.violations.append({"what": "sharp image on a symmetric grid is not the indicator of `distance < radius` "
+                                           "(exact rational evaluation; strict inequality)", "check": "symmask",
+                                   "input": meta, "image": np.asarray(m, int).ravel().tolist()[:64],
+                                   "expected": ex.astype(int).ravel().tolist()[:64], "found": True})
+        ctx.count("sym_mask_cells_exactly_on_the_interface", "cells", kn[0])
+        ctx.count("sym_mask_cases_with_a_cell_exactly_on_the_interface", kn[0] > 0)
+        ml = vlib.listlit([vlib.blit(bool(b)) for b in m.ravel()])
+        if fam == "cylindrical":
+            g = (f"(cyl {vlib.zlit(gs['shape'][0])} {vlib.zlit(gs['shape'][1])} {vlib.qlit(gs['radius'])} "
+                 f"{vlib.qlit(gs['bounds_z'][0])} {vlib.qlit(gs['bounds_z'][1])} {vlib.blit(gs['periodic_z'])})")
+            dl = vlib.listlit([f"({vlib.qlit(z)}, {vlib.qlit(R)})" for z, R in members])
+            lits.append(f"(Cyl {g} {dl} {ml})")
+        else:
+            r0, r1 = gs["radius"]
+            lits.append(f"(Radial {vlib.qlit(r0)} {vlib.qlit(Fraction(r1 - r0) / gs['shape'])} {vlib.qlit(members[0][1])} "
+                        f"{gs['shape']}%nat {ml})")
+        metas.append(meta)
+        ctx.case(["sym-mask", gs, members, meta["variant"]], nontrivial=bool(np.any(m) and not np.all(m)))
+        ctx.count("sym_mask_family", fam + (" periodic z" if gs.get("periodic_z") else ""))
+        ctx.count("sym_mask_variant", SYM_VARIANTS[variant] if k == 1 else f"emulsion of {k}")
+        ctx.count("sym_mask_fill", "empty" if not np.any(m) else ("full" if np.all(m) else "partial"))
+        for key, val in grid_tags(gs).items():
+            ctx.count("sym_mask_" + key, val)
+        for _, R in members:
+            ctx.count("sym_mask_radius", "0" if R == 0 else ("tiny" if R <= 2 ** -6 else "regular"))
+    if not lits:
+        return
+    ctx.sample({"sym_mask_case": lits[2][:300]})
+    bad = vlib.run_cases(ctx, "symmask", HEADER_SYM, lits, "agree", shard=ctx.scale(200, 400))
+    if bad:
+        ctx.broken.append(f"correspondence sharp masks on symmetric grids: Model/RenderSym and the implementation differ "
+                          f"on {len(bad)} case(s), first: {json.dumps(metas[bad[0]])[:300]}")
+        ctx.extra["sym_mask_disagreements"] = [metas[b] for b in bad[:5]]
 
 
 HEADER_ANGLE = """From Coq Require Import ZArith QArith Qabs List Bool.
@@ -1068,11 +1849,16 @@ def correspondence_angles(ctx, rng):
     n = ctx.scale(30, 200)
     for i in range(n):
         d = (1, 2, 3, 3)[i % 4]
-        gs = gen_cart_grid(rng, d, True, max_n=6 if d < 3 else 4)
-        gs["bounds"] = [[lo, hi] for lo, hi in gs["bounds"]]
-        pos = [lo + (rng.randrange(nn) + 0.5) * (hi - lo) / nn for (lo, hi), nn in zip(gs["bounds"], gs["shape"])]
-        if i % 3 == 0:
-            pos = gen_centre(rng, gs, True)
+        if i % 6 == 5:  # grids with a symmetry axis: droplet on the centre / axis
+            gs = gen_sym_grid(rng, ("polar", "spherical", "cylindrical")[(i // 6) % 3])
+            d = grid_dim(gs)
+            pos = gen_droplet(rng, "SphericalDroplet", gs, True, kinds=False)["position"]
+        else:
+            gs = gen_cart_grid(rng, d, True, max_n=6 if d < 3 else 4)
+            gs["bounds"] = [[lo, hi] for lo, hi in gs["bounds"]]
+            pos = [lo + (rng.randrange(nn) + 0.5) * (hi - lo) / nn for (lo, hi), nn in zip(gs["bounds"], gs["shape"])]
+            if i % 3 == 0:
+                pos = gen_centre(rng, gs, True)
         try:
             grid = make_grid(gs)
             origin = np.array(pos, float)
@@ -1084,8 +1870,9 @@ def correspondence_angles(ctx, rng):
             ctx.violations.append({"what": f"polar_coordinates raised {exc_kind(e)}: {e}", "check": "angles",
                                    "input": {"grid": gs, "position": pos}, "found": True})
             continue
+        ctx.count("angle_grid_family", gs["family"])
         dist = np.asarray(res[0])
-        for idx in itertools.product(*[range(s) for s in gs["shape"]]):
+        for idx in itertools.product(*[range(s) for s in grid.shape]):
             dv = [float(x) for x in diff[idx]]
             dq = Fraction(float(dist[idx]))
             if dq * dq != sum(Fraction(x) ** 2 for x in dv):
@@ -1158,6 +1945,43 @@ def _strip(case):
     return {k: v for k, v in case.items() if not k.startswith("_")}
 
 
+def count_case_dimensions(ctx, case):
+    """evidence histogram of the input dimensions of one rendering case (notes/input_dimensions.md)"""
+    gs, ds = case["grid"], case["droplet"]
+    for key, val in grid_tags(gs).items():
+        ctx.count(key, val)
+    for key, val in centre_tags(gs, ds["position"], ds["radius"]).items():
+        for v in (val if isinstance(val, list) else [val]):
+            ctx.count(key, v)
+    for key, val in amp_tags(ds).items():
+        ctx.count(key, val)
+    if gs["family"] == "cylindrical":
+        nr, nz = gs["shape"]
+        hz = (gs["bounds_z"][1] - gs["bounds_z"][0]) / nz
+        ctx.count("cyl_droplet_length_in_z_cells", "longer than the number of radial cells"
+                  if 2 * ds["radius"] / hz > nr else "at most the number of radial cells")
+        z, (z0, z1) = ds["position"][2], gs["bounds_z"]
+        ctx.count("cyl_centre_z", "outside the z range" if not z0 <= z <= z1 else
+                  ("on a z face of the grid" if z in (z0, z1) else "inside the z range"))
+    ck = ds.get("ctor") or {}
+    ctx.count("ctor_position_type", pos_kind_used(ds["position"], ck.get("pos", "ndarray")))
+    ctx.count("ctor_radius_type", num_kind_used(ds["radius"], ck.get("num", "float")))
+    if ds["cls"] != "SphericalDroplet":
+        ctx.count("ctor_width_type", num_kind_used(ds.get("width"), ck.get("num", "float")))
+    if "amplitudes" in ds:
+        ctx.count("ctor_amplitudes_type", pos_kind_used(ds["amplitudes"], ck.get("amp", "list")))
+    ctx.count("provenance", ds.get("prov", "fresh"))
+    ctx.count("geometry_length_scale", f"2^{round(math.log2(gs.get('length_scale', 1.0)))}")
+    v0, v1 = float(case["vmin"]), float(case["vmax"])
+    ctx.count("vmin_vmax_type", "keywords omitted (defaults)" if case.get("vkw") == "omitted" and (v0, v1) == (0.0, 1.0)
+              else v_kind_used(v0, v1, case.get("vkind", "float")))
+    ctx.count("label_argument", "omitted" if "label" not in case else ("None" if case["label"] is None else "str"))
+    ex = case.get("extra")
+    ctx.count("typed_image_dtype", "not requested" if not ex else f"{ex['dtype']} ({ex.get('how', 'kw')})")
+    ctx.count("rendered_twice", bool(case.get("repeat")))
+    ctx.count("cells_on_the_knife_edge_in_case", "some" if case.get("_knife_cells") else "none")
+
+
 def run_oracle(ctx, rng, scale_q, scale_t, record=True):
     """the property oracle over the implementation; returns failures (dicts)"""
     fails = []
@@ -1179,10 +2003,14 @@ def run_oracle(ctx, rng, scale_q, scale_t, record=True):
                 ctx.count("periodic_mask", "cyl_periodic_z" if gs["periodic_z"] else "cyl_open_z")
             w = ds.get("width", "n/a")
             ctx.count("width", "None" if w is None else ("0" if w == 0 else ("n/a" if w == "n/a" else "positive")))
-            ctx.count("radius", "0" if ds["radius"] == 0 else ("tiny" if ds["radius"] <= 2 ** -6 else "regular"))
+            ctx.count("radius", "0" if ds["radius"] == 0 else
+                      ("tiny" if ds["radius"] / gs.get("length_scale", 1.0) <= 2 ** -6 else "regular"))
             ctx.count("nonzero_amplitudes", sum(1 for a in ds.get("amplitudes", []) if a != 0))
             v0, v1 = case["vmin"], case["vmax"]
             ctx.count("vmin_vs_vmax", "<" if v0 < v1 else (">" if v0 > v1 else "="))
+            ctx.count("vmin_vmax_signs", ("both negative" if max(v0, v1) < 0 else
+                                          ("both >= 0" if min(v0, v1) >= 0 else "opposite signs")))
+            count_case_dimensions(ctx, case)
     if record and render_cases:
         ctx.sample({"render_case": _strip(render_cases[len(CORPUS_RENDER)])})
     for case in gen_roll_cases(rng, ctx.scale(scale_q // 4, scale_t // 4)):
@@ -1192,6 +2020,16 @@ def run_oracle(ctx, rng, scale_q, scale_t, record=True):
             ctx.case(["roll", _strip(case)], nontrivial=case.get("_nontrivial", False))
             ctx.count("roll", f"{case['droplet']['cls']} exact={case['exact']}")
             ctx.count("roll_k", case["k"])
+            gs = case["grid"]
+            ctx.count("roll_axis", f"axis {case['axis']} of {len(gs['shape'])} "
+                                   f"[{''.join('P' if p else '-' for p in gs['periodic'])}]")
+            ctx.count("roll_axis_cells", "1 cell" if gs["shape"][case["axis"]] == 1 else
+                      ("2 cells" if gs["shape"][case["axis"]] == 2 else ">= 3 cells"))
+            for key, val in grid_tags(gs).items():
+                if key in ("grid_spacing_per_axis", "grid_origin"):
+                    ctx.count("roll_" + key, val)
+            ctx.count("roll_provenance", case["droplet"].get("prov", "fresh"))
+            ctx.count("roll_length_scale", f"2^{round(math.log2(gs.get('length_scale', 1.0)))}")
     em_cases = gen_emulsion_cases(rng, ctx.scale(scale_q // 8, scale_t // 8))
     nclip = 0
     for case in em_cases:
@@ -1200,7 +2038,14 @@ def run_oracle(ctx, rng, scale_q, scale_t, record=True):
         nclip += bool(case.get("_clipped"))
         if record:
             ctx.case(["emulsion", _strip(case)], nontrivial=case.get("_nontrivial", False))
-            ctx.count("emulsion_members", len(case["droplets"]))
+            m = len(case["droplets"])
+            ctx.count("emulsion_members", m if m <= 5 else ("6..12" if m <= 12 else "13..40"))
+            ctx.count("emulsion_classes", "empty" if not m else
+                      ("one class" if len({d["cls"] for d in case["droplets"]}) == 1 else "mixed classes"))
+            ctx.count("emulsion_build", case.get("build", "list"))
+            ctx.count("emulsion_grid_family", case["grid"]["family"] + (str(len(case["grid"]["shape"]))
+                                                                      if case["grid"]["family"] == "cartesian" else ""))
+            ctx.count("emulsion_permutation", "identity" if case["perm"] == sorted(case["perm"]) else "non-trivial")
     if record:
         ctx.count("emulsion_cases_where_clip_matters", "n", nclip)
         ctx.sample({"emulsion_case": _strip(em_cases[2])})
@@ -1224,6 +2069,7 @@ def check(ctx: vlib.Ctx) -> int:
         run_sample_goals(ctx, random.Random(ctx.seed + 1))
     # (c) correspondence inside Coq
     correspondence_masks(ctx, random.Random(ctx.seed + 2))
+    correspondence_sym_masks(ctx, random.Random(ctx.seed + 6))
     correspondence_angles(ctx, random.Random(ctx.seed + 3))
     # (d) property oracle over the implementation (always; larger stream when something no longer checks)
     big = bool(ctx.broken) or not fresh
@@ -1239,6 +2085,10 @@ def check(ctx: vlib.Ctx) -> int:
         if seen[key] <= 2 and len(ctx.violations) < 10:
             ctx.violations.append({**v, "broken": ctx.broken[:3]})
     ctx.extra["oracle_failures_total"] = len(fails)
+    ctx.notes.append("input dimensions audited against notes/input_dimensions.md (see the module docstring and the "
+                     "histogram keys grid_*, cyl_*, centre_*, periodic_faces_crossed, touches_*, amplitudes_*, ctor_*, "
+                     "provenance, vmin_vmax_*, typed_image_dtype, label_*, rendered_twice, emulsion_*, roll_*, mask_*, "
+                     f"sym_mask_*, angle_grid_family); suspected defects kept out of the judgement: {len(SUSPECTED)}")
     ctx.extra["failure_kinds"] = {f"{k[0]}: {k[1]}": n for k, n in seen.items()}
     # known finding F19 (periodic cylindrical grids are never wrapped in z by py-pde 0.58.0): replay the
     # recorded input; print KNOWN-FINDING while it still fails and the entry is listed
@@ -1292,6 +2142,23 @@ def replay(path: str) -> int:
         good = bool(np.all((f == 0.0) | (f == 1.0))) and np.array_equal(f > 0.5, ex)
         print("emulsion of sharp droplets is the union of the indicators:", good)
         return 0 if good else 1
+    if kind == "symmask" and inp is not None:
+        from droplets.droplets import SphericalDroplet
+        from droplets.emulsions import Emulsion
+        gs, members = inp["grid"], inp["members"]
+        ex = exact_sym_mask(gs, members)
+        if inp.get("variant") == "emulsion" or len(members) != 1:
+            f = np.asarray(Emulsion([SphericalDroplet([0.0, 0.0, z], R) for z, R in members])
+                           .get_phasefield(make_grid(gs)).data)
+            m = f > 0.5
+        else:
+            pos = [0.0, 0.0] if gs["family"] == "polar" else [0.0, 0.0, members[0][0]]
+            m, f = render_mask(inp["variant"], gs, pos, members[0][1], random.Random(0))
+        print("implementation:", np.asarray(m, int).ravel().tolist())
+        print("exact d2 < r2 :", ex.astype(int).ravel().tolist())
+        levels = f is None or bool(np.all((np.asarray(f) == 0.0) | (np.asarray(f) == 1.0)))
+        print("only the two levels occur:", levels)
+        return 0 if (np.array_equal(np.asarray(m, bool), ex) and levels) else 1
     if kind == "angles" and inp is not None:
         from droplets.tools import spherical
         res = spherical.polar_coordinates(make_grid(inp["grid"]), origin=np.array(inp["position"], float), ret_angle=True)
